@@ -198,11 +198,13 @@ class Gen1:
     """Produces valid TL1 encodings straight from the descriptor (an independent third implementation,
     used only to shape inputs: both sides of the tie decode what it produces)."""
 
-    def __init__(self, sc, rng, maxdepth=4, big=False):
+    def __init__(self, sc, rng, maxdepth=4, big=False, noncanon=False):
         self.I = sc.desc["instances"]
         self.rng = rng
         self.maxdepth = maxdepth
         self.big = big
+        self.noncanon = noncanon      # emit some strings in non-minimal length forms / with non-zero padding (must be rejected)
+        self.bad = 0                  # number of non-canonical strings emitted into the current value
 
     def u32(self, n):
         return (n & 0xFFFFFFFF).to_bytes(4, "little")
@@ -213,9 +215,26 @@ class Gen1:
             n = r.choice([253, 254, 255, 256, 300])
         else:
             n = r.choice(STR_LENS)
+        make_bad = self.noncanon and self.bad == 0 and r.chance(1, 2)   # at most one bad string per value, so nothing masks it
+        if make_bad:
+            n = r.choice([253, 253, 252, 1, 0, 17, 254, 300])
         k = r.below(4)
         s = bytes(r.below(256) for _ in range(n)) if k == 0 else bytes(r.range(97, 122) for _ in range(n))
         hdr = bytes([n]) if n <= 253 else b"\xfe" + n.to_bytes(3, "little")
+        if make_bad:
+            form = r.choice([0, 0, 1, 2])
+            if form == 0 and n <= 253:
+                hdr = b"\xfe" + n.to_bytes(3, "little")        # non-minimal medium form
+                self.bad += 1
+            elif form == 1:
+                hdr = b"\xff" + n.to_bytes(7, "little")        # non-minimal huge form
+                self.bad += 1
+            elif (len(hdr) + n) % 4 != 0:
+                b = hdr + s
+                pad = bytearray(-len(b) % 4)
+                pad[r.below(len(pad))] = r.range(1, 255)       # non-zero padding
+                self.bad += 1
+                return b + bytes(pad)
         b = hdr + s
         return b + bytes(-len(b) % 4)
 
